@@ -99,7 +99,9 @@ def build_items(tier, seed, wd):
         for p in corpus.stratified_sample(files, 150, seed + 61 + k, always=("/styles/code_examples/",)):
             add(p, ["--fix", "-c", cfgfile], tag)
     # the example configurations the documentation shows (docs/*.rst code blocks), merged into a few whole configurations
-    bundles = configs.doc_example_bundles()
+    import cfgrun
+
+    bundles = configs.doc_example_bundles(skip_ids=set(cfgrun.rule_meta()[3]))
     for k, (cfg, rids, names) in enumerate(bundles[:3]):
         tag = "docex%d" % (k + 1)
         sweeps[tag] = cfg["rule"]
